@@ -458,19 +458,25 @@ Definition rh_event (s : rh_state) (e : p3_event) : option rh_state :=
   | EvHeaders _ | EvEnd => Some s
   | EvByte b =>                                   (* byte_part_received *)
       if negb ((b =? 69) || (b =? 83)) then None
-      else if rh_body_started s
-      then match rh_stream_status s with
-           | Some _ => None
-           | None => Some {| rh_status := rh_status s; rh_args := rh_args s; rh_parts := rh_parts s;
-                             rh_body_started := true; rh_stream_status := Some b;
-                             rh_error_args := rh_error_args s |}
-           end
-      else match rh_status s with
-           | Some _ => None
-           | None => Some {| rh_status := Some b; rh_args := rh_args s; rh_parts := rh_parts s;
-                             rh_body_started := false; rh_stream_status := rh_stream_status s;
-                             rh_error_args := rh_error_args s |}
-           end
+      else
+        (* a status byte after status and args, before any body part, starts the
+           body stream (the stream failed before its first chunk) *)
+        let started := rh_body_started s ||
+                       (match rh_status s with Some _ => true | None => false end &&
+                        match rh_args s with Some _ => true | None => false end) in
+        if started
+        then match rh_stream_status s with
+             | Some _ => None
+             | None => Some {| rh_status := rh_status s; rh_args := rh_args s; rh_parts := rh_parts s;
+                               rh_body_started := true; rh_stream_status := Some b;
+                               rh_error_args := rh_error_args s |}
+             end
+        else match rh_status s with
+             | Some _ => None
+             | None => Some {| rh_status := Some b; rh_args := rh_args s; rh_parts := rh_parts s;
+                               rh_body_started := false; rh_stream_status := rh_stream_status s;
+                               rh_error_args := rh_error_args s |}
+             end
   | EvBytes bs =>                                 (* bytes_part_received *)
       Some {| rh_status := rh_status s; rh_args := rh_args s; rh_parts := rh_parts s ++ [bs];
               rh_body_started := true; rh_stream_status := rh_stream_status s;
@@ -651,4 +657,12 @@ Definition run_decode_tuple (line : bytes) : obs := odt (decode_tuple line).
 Definition run_offsets (offs : list (N * N)) : obs :=
   OL [OB (serialise_offsets offs);
       oopt (olist (opair oN oN)) (deserialise_offsets (serialise_offsets offs))].
+(* ConventionalResponseHandler fed a sequence of parts: its fields, or the error *)
+Definition run_rh (evs : list p3_event) : obs :=
+  match rh_run rh_init evs with
+  | None => OE "SmartProtocolError"
+  | Some s => OL [oopt (fun b => OB [b]) (rh_status s); oopt obytes (rh_args s); olist obytes (rh_parts s);
+                  obool (rh_body_started s); oopt (fun b => OB [b]) (rh_stream_status s);
+                  oopt obytes (rh_error_args s)]
+  end.
 Definition run_deser (text : bytes) : obs := oopt (olist (opair oN oN)) (deserialise_offsets text).
